@@ -112,6 +112,27 @@ pub struct Config {
     pub transform: TransformConfig,
 }
 
+/// Do the two (existing) paths name the same file? Besides differing
+/// spellings and symlinks (resolved by `canonicalize`), hard links to the
+/// same file are detected where the platform exposes file identity.
+fn same_file(a: &Path, b: &Path) -> Result<bool> {
+    if a.canonicalize().map_err(SvgdxError::from_err)?
+        == b.canonicalize().map_err(SvgdxError::from_err)?
+    {
+        return Ok(true);
+    }
+    #[cfg(unix)]
+    {
+        use std::os::unix::fs::MetadataExt;
+        let ma = a.metadata().map_err(SvgdxError::from_err)?;
+        let mb = b.metadata().map_err(SvgdxError::from_err)?;
+        if ma.dev() == mb.dev() && ma.ino() == mb.ino() {
+            return Ok(true);
+        }
+    }
+    Ok(false)
+}
+
 impl Config {
     fn from_args(args: Arguments) -> Result<Self> {
         if args.watch && args.file == "-" {
@@ -126,10 +147,7 @@ impl Config {
             // as high-level as possible to keep the lower level API cleaner.
             let in_path = Path::new(&args.file);
             let out_path = Path::new(&args.output);
-            if out_path.exists()
-                && out_path.canonicalize().map_err(SvgdxError::from_err)?
-                    == in_path.canonicalize().map_err(SvgdxError::from_err)?
-            {
+            if out_path.exists() && same_file(in_path, out_path)? {
                 return Err(SvgdxError::from(
                     "Output path must not refer to the same file as the input file.",
                 ));
